@@ -16,6 +16,7 @@ MNext ==
      \/ \E r \in Replica : have[r] # {} /\ have[r] \ hub # {} /\ CPush(r) /\ Log(E("Push", r, 0, "", 0))
      \/ \E r \in Replica : have[r] # {} /\ CPush(r) /\ res = "commit" /\ Log(E("Push", r, 0, "", 0))
      \/ \E r \in Replica : hub # {} /\ CPull(r) /\ Log(E("Pull", r, 0, "", 0))
+     \/ \E r \in Replica : hub # {} /\ res # "fetch" /\ CFetch(r) /\ Log(E("Fetch", r, 0, "", 0))
      \/ \E r \in Replica, b \in Bugs : Cardinality(have[r]) > 1 /\ CRemove(r, b) /\ Log(E("Remove", r, b, "", 0))
      \/ \E r \in Replica, n \in 1..2 : have[r] # {} /\ res # "resolve" /\ CResolveAll(r, n) /\ Log(E("ResolveAll", r, 0, "", n))
      \/ \E r \in Replica : have[r] # {} /\ res # "reopen" /\ CReopen(r) /\ Log(E("Reopen", r, 0, "", 0))
